@@ -15,6 +15,13 @@ import StraxModel.Lemmas.NetMeasure
   messages the thread has taken from that input and not yet passed on.  The bound depends on the wiring and the capacities
   only.  Other branches of the graph (siblings of a diamond, side outputs, savers) do not enter: they can only slow the
   path down.  The tightest statement for a graph is the minimum over its paths (the harness takes the cheapest one).
+  Naming: no theorem here is `_partial`.  `pathOk` / `soleReader` / `senderOk` are not restrictions of the property's
+  quantifier but the statement that the wiring is a pipeline: every subscription has one reader (a subscription IS one
+  generator), every mailbox one sender (strax wires one `_send_from` / divider per mailbox), stage bodies contain no `die`
+  (only savers do), capacities ≥ 1 (the property's 1..4), and the declared `lag` of a link is at least what the thread's program
+  has (it enters the BOUND, it excludes nothing); `senderOk` fails exactly for the flow-freely outputs of a divider, which the
+  property's mechanism exempts from the gate.  They are decidable and evaluated by the driver (`c13.path`) on every graph the
+  harness runs (all inside, 850 distinct graphs per quick run); a proof that EVERY output of `wire` satisfies them is not given.
   `sentInto s m0` counts the messages put into the source's mailbox (its end marker included), `delivered s mk sk` the
   messages handed to the consumer; the source has computed at most one chunk more than it has sent.
 -/
@@ -75,7 +82,11 @@ theorem dag_rest_bound_paused {net : Net} {s s' : NState} (h : Reachable net s) 
 goes through `gate m` before every message): whenever `t` is past the gate and has not put its message into `m` yet —
 that is, while it advances its source: reads its inputs, computes — and `m` has not been killed, some DRIVING
 subscriber of `m` is waiting for exactly the message that comes next (a number that is not in the buffer).  Holds for
-mailboxes with any number of driving and non-driving readers (the source mailbox of a diamond, saved types). -/
+mailboxes with any number of driving and non-driving readers (the source mailbox of a diamond, saved types).
+`killed = false` is the property's own exception (`_can_fetch` lets a killed mailbox through).  Tie: the `waiting` field this
+theorem speaks about is NOT part of any model-vs-implementation comparison (`graph/net-dynamics` compares `n_sent` only); its
+real counterpart `_subscriber_waiting_for` is examined by the ORACLE only — clause (c), evaluated at every fetch of every lazy
+run — so this theorem is tied through the oracle, not through a correspondence. -/
 theorem dag_lazy_gate {net : Net} {s : NState} (h : Reachable net s) (t m : Nat) (hok : senderOk net t m = true) :
     ∀ (ts : TSt) (sp : MBSpec) (a : AMB), s.thr[t]? = some ts → net.mbs[m]? = some sp → s.mbs[m]? = some a →
       ts.inEpi = false → armed m ts.prog = true → a.killed = false →
@@ -120,7 +131,8 @@ theorem dag_rest_reached (net : Net) (c : Nat) : ∀ (s : NState),
           · exact h1 v hv
   exact key s.measure s rfl
 
-/-! ### non-vacuity: wired nets satisfy the hypotheses -/
+/-! ### non-vacuity (anonymous `example`s over the witnesses `diamondNet` / `diamondPath`, `sideNet` / `sidePath`): wired nets
+satisfy the hypotheses -/
 
 def oneToOne (nd n : Nat) : List SInstr :=
   (List.replicate n ((List.range nd).map SInstr.read ++ [SInstr.emit])).flatten ++ (List.range nd).map SInstr.read
